@@ -139,8 +139,14 @@ pub fn convert_bsei_stsei(
     let bsei_amount_with_fee: Uint128;
     if state.bsei_exchange_rate < threshold {
         let max_peg_fee = bsei_amount * recovery_fee;
-        let required_peg_fee = (total_bsei_supply + current_batch.requested_bsei_with_fee)
-            .checked_sub(state.total_bond_bsei_amount)?;
+        // The fee may only close the gap that is left once the converted share has left the
+        // pool: the converted tokens take their own part of the shortfall with them.
+        let remaining_claims = (total_bsei_supply + current_batch.requested_bsei_with_fee)
+            .checked_sub(bsei_amount)?;
+        let remaining_bond = state
+            .total_bond_bsei_amount
+            .checked_sub(state.bsei_exchange_rate.mul(bsei_amount))?;
+        let required_peg_fee = remaining_claims.saturating_sub(remaining_bond);
         let peg_fee = Uint128::min(max_peg_fee, required_peg_fee);
         bsei_amount_with_fee = bsei_amount.checked_sub(peg_fee)?;
     } else {
